@@ -76,6 +76,13 @@ class CancelOutput(Monitor):
                         continue
                     ent = led.out_entries[spec[1]]
                     older = [init.get(spec[1])] + [led.wvals[w] for w in ent.chain[:-1] if w in led.wvals]
+                    # the same value may also have been published by a writer outside this chain (e.g. a sibling
+                    # transition re-publishing `x: ctx().x`) and reach the terminal context of the task the cancellation
+                    # stopped: then it is not "older", the case is ambiguous and not judged
+                    elsewhere = [val for w, val in led.wvals.items() if w[2] == spec[1] and w not in ent.chain]
+                    if out[name] != ent.value and out[name] in older and out[name] in elsewhere:
+                        self.stats["older_rule_ambiguous_skipped"] = self.stats.get("older_rule_ambiguous_skipped", 0) + 1
+                        continue
                     if out[name] != ent.value and out[name] in older and len(ent.chain) > 1:
                         run.viol("C10", "cancel_output_older_than_published", "output %s = %r although %r was published for "
                                  "%s on a transition that reached a terminal context" % (name, out[name], ent.value, spec[1]),
